@@ -42,7 +42,10 @@ def run(ck, prog):
         "variables bound by !foreach, !filter and !foldl are named by and typed from the operands the reference "
         "says (operand positions read off `values.get(k)` through the provenance chain); (R13.8) can_be_casted_to, "
         "evaluated from its MIR on every pair of field-less types, contains the reflexive pairs, `?` and Any in both "
-        "positions, int<->bit, int<->bits, string<->code, and no pair of unrelated scalars.")
+        "positions, int<->bit, int<->bits, string<->code, and no pair of unrelated scalars; (R13.11) the list of "
+        "template-argument values handed to check_template_args has exactly one entry per written argument (only "
+        "length-preserving iterator adaptors / one push per iteration), so positional binding and the surplus count "
+        "see every argument at its own position.")
     ck.trusted = ["reference arity table in tdq/ref.py (rows marked unsure are informational)"]
     for r, t in (("R13.1", "syntax errors come from every workspace file, paired with that file"),
                  ("R13.2", "failed lookups are reported"),
@@ -369,6 +372,7 @@ def r134(ck, prog):
     r137(ck, prog)
     r138(ck, prog)
     r1310(ck, prog)
+    r1311(ck, prog)
     # diagnostics are filed under the file being walked: the include stack is a stack and is balanced
     from .c05 import file_stack_rule
     ck.rule("R13.9", "diagnostics are attributed to the file being walked (include stack balanced, a real stack)")
@@ -419,6 +423,62 @@ def r1310(ck, prog):
           msg="Record::is_subclass_of neither recurses nor loops over the parents", nontrivial=False)
     if not rec or n:
         ck.floor("R13.10", "loop exits of is_subclass_of", n, 2)
+
+
+
+LEN_PRESERVING = {"map", "enumerate", "inspect", "rev", "by_ref", "cloned", "copied", "collect", "into_iter", "iter",
+                  "peekable", "fuse", "size_hint", "next", "for_each", "fold", "try_for_each"}
+
+
+def r1311(ck, prog):
+    """positional template arguments keep their position: check_template_args binds the k-th written argument to the
+    k-th template parameter and compares the number of written arguments with the number of parameters, so the list
+    <ArgValueList as Indexable>::index hands over must have exactly one entry per written argument (an argument whose
+    type cannot be inferred is a `None` entry, not a missing one). Decided on the MIR of that function: every iterator
+    adaptor between arg_values() and the collected list is length preserving (no filter / filter_map / flatten / take /
+    skip ..), and in loop form every iteration that obtained an argument pushes an entry."""
+    ck.rule("R13.11", "one entry per written template argument reaches check_template_args (positions are preserved)")
+    b = None
+    for pth, bb_ in prog.bodies.items():
+        if pth.endswith("ArgValueList as ide::index::Indexable>::index") or pth.endswith("ArgValueList as index::Indexable>::index"):
+            b = bb_
+    ck.anchor(b is not None, "<ArgValueList as Indexable>::index not found")
+    src = [i for i, t in b.calls() if (Body.callee(t) or "").endswith("ArgValueList::arg_values")]
+    ck.anchor(bool(src), "<ArgValueList as Indexable>::index no longer enumerates arg_values()")
+    n = 0
+    for i, t in b.calls():
+        c = t["f"].get("decl") or Body.callee(t) or ""
+        m = re.search(r"iter::(?:traits::iterator::)?Iterator::(\w+)$", c) or re.search(r"Itertools::(\w+)$", c)
+        if not m:
+            continue
+        n += 1
+        ck.ob("R13.11", "adaptor:%s" % m.group(1), m.group(1) in LEN_PRESERVING,
+              "Iterator::%s keeps one element per written argument" % m.group(1),
+              msg="<ArgValueList as Indexable>::index builds the argument list through Iterator::%s, which can drop or add "
+                  "elements [%s]: check_template_args binds the k-th entry to the k-th template parameter and counts the "
+                  "entries, so every argument after a dropped one is checked against the wrong parameter and surplus "
+                  "arguments go unreported" % (m.group(1), b.where(i)))
+    # loop form: an iteration that obtained an argument reaches the loop head again only through a push
+    tests = brackets.option_tests(b, prog)
+    for h, bl in cfg.loops(b):
+        inl = set(bl)
+        nxt = [t for t in tests if t["bb"] in inl and re.search(r"Iterator>?::next$", t["src_callee"] or "")]
+        if not nxt:
+            continue
+        pushes = {u for u in bl if b.term(u)["k"] == "call" and re.search(r"Vec::<.*>::push$|Vec<.*>::push$|::push$", Body.callee(b.term(u)) or "")}
+        for t in nxt:
+            n += 1
+            skips = cfg.path_exists(b, t["some_target"], lambda v: v == h, avoid=frozenset(pushes) | (frozenset(range(len(b.blocks))) - inl),
+                                    include_src=True)
+            ck.ob("R13.11", "loop:%d" % h, bool(pushes) and not skips,
+                  "every iteration that obtained an argument pushes one entry",
+                  msg="<ArgValueList as Indexable>::index has an iteration over the written arguments that can go on to the "
+                      "next argument without adding an entry to the list [%s]: the arguments after it shift one position "
+                      "to the left in check_template_args" % b.where(t["bb"]))
+    ck.floor("R13.11", "adaptors / loop iterations of the argument list", n, 2)
+    # the consumer binds by position: check_template_args must index the parameters with the position of the entry
+    cb = prog.body("ide::index::check_template_args")
+    ck.anchor(cb is not None, "check_template_args not found")
 
 
 def r138(ck, prog):
